@@ -205,6 +205,13 @@ theorem leading_implicit_tracks_misindexed :
     grects (layout gridC [{ gitem with colEnd := lineNo 1 }, { gitem with id := 1 }]) =
       some [(50, 0, 0, 5), (0, 0, 50, 5)] := by decide +kernel
 
+/-- id=grid-inflexible-fr-no-restart.  `grid-template-columns: minmax(20px, 0.5fr) 3fr` in 64px: the first track is
+made inflexible (its share, 64/3.5 × 0.5, is below its 20px minimum) but the fr size is not computed again without it:
+the second track takes 3 × 64/3.5 = 384/7 and the tracks overflow the container (20 + 44 expected). -/
+theorem inflexible_fr_no_restart :
+    (resolveTracks [(.px 20, .fr (1/2)), (.auto, .fr 3)] (some 64) [] 0 true 0 false).toOption.map
+      (List.map (·.base)) = some [20, 384/7] := by decide +kernel
+
 /-- id=grid-maximize-no-redistribution.  `grid-template-columns: minmax(0, 50px) 5px` in 100px:
 the 95px of free space are split in two shares of 47.5; the second track is already at its limit and
 its share is lost, the first track ends at 47.5px (50px expected: there is room for every maximum). -/
